@@ -121,7 +121,7 @@ BUILTINS = {'bytearray', 'issubclass', 'dict', 'range', 'enumerate', 'str', 'int
             'TimeoutError', 'ord', 'chr', 'filter', 'callable', 'format', 'hash', 'bytes', 'float', 'pow', 'bin', 'hex', 'oct', 'ascii',
             'NotImplemented', 'LookupError', 'ArithmeticError', 'ZeroDivisionError', 'OverflowError', 'UnicodeDecodeError', 'UnicodeEncodeError', 'UnicodeError',
             'EOFError', 'BrokenPipeError', 'ConnectionResetError', 'ConnectionAbortedError', 'ConnectionRefusedError', 'BaseException', 'KeyboardInterrupt',
-            'NameError', 'IOError', 'FileNotFoundError', 'PermissionError', 'InterruptedError', 'BlockingIOError', 'RecursionError', 'ImportError', 'SystemExit'}
+            'vars', 'NameError', 'IOError', 'FileNotFoundError', 'PermissionError', 'InterruptedError', 'BlockingIOError', 'RecursionError', 'ImportError', 'SystemExit'}
 
 
 # standard-library modules whose functions are pure functions of immutable arguments: evaluated natively by the folder
@@ -944,6 +944,8 @@ class Folder:
                 return obj.fields[name]
             if name == '__class__':
                 return ClsRef(obj.cls)
+            if name == '__dict__' and id(obj) in self._fresh and not any('__slots__' in c_.assigns for c_ in self.repo.mro(obj.cls)):
+                return obj.fields        # the instance dictionary (live: writes through it are attribute assignments); private names unmangled
             if name.startswith('_') and '__' in name[1:] and not name.endswith('__'):
                 for cc in self.repo.mro(obj.cls):
                     pre = '_' + cc.name.split('.')[-1].lstrip('_')
@@ -971,7 +973,7 @@ class Folder:
                 cg_, ga_ = self._find(obj.cls, '__getattr__')
                 if ga_ is not None and not (name.startswith('__') and name.endswith('__')):
                     return self._invoke(cg_.module, cg_, ga_, obj, [name], {})
-                if id(obj) in self._fresh and self.allow_loops and all(not c_.base_names or all(self.repo.resolve_class_name(c_.module, b_) is not None or b_ in ('object', 'ABC', 'abc.ABC') for b_ in c_.base_names) for c_ in self.repo.mro(obj.cls)):
+                if id(obj) in self._fresh and self.allow_loops and not (name.startswith('__') and name.endswith('__')) and all(not c_.base_names or all(self.repo.resolve_class_name(c_.module, b_) is not None or b_ in ('object', 'ABC', 'abc.ABC') for b_ in c_.base_names) for c_ in self.repo.mro(obj.cls)):
                     # every class of the MRO is in the package and the folder ran the constructor: the attribute does not exist
                     raise FoldRaise('AttributeError', f"'{obj.cls.name}' object has no attribute '{name}'")
                 raise Unsupported(f'{obj.cls.name}.{name}')
@@ -2636,6 +2638,8 @@ class Folder:
             if a == b and not (-5 <= a <= 256) and a is not b:
                 raise Unsupported('identity comparison of two equal integers outside the small-integer cache: the result depends on the implementation')
             return a == b
+        if isinstance(a, tuple) and isinstance(b, tuple) and len(a) == 2 and len(b) == 2 and a[0] in ('builtin', 'extern') and b[0] in ('builtin', 'extern'):
+            return a == b        # builtin / external classes and functions are denoted by name: one object per name
         if isinstance(a, (str, bytes, tuple, float)) and type(a) is type(b):
             if a is b or a != b:
                 return a is b
@@ -3202,6 +3206,10 @@ class Folder:
                 if kw.get('file') is not None:
                     raise Unsupported('print(file=...)')
                 return None
+            if n == 'vars' and len(args) == 1 and isinstance(args[0], DV):
+                return self._attr(args[0], '__dict__')
+            if n == 'object' and not args and not kw:
+                return object()        # a unique sentinel: only identity is ever asked of it
             if n == 'id':
                 return id(args[0])       # only meaningful as a key (the memo of copy.deepcopy); never compared with a constant
             if n == 'callable':
@@ -3217,6 +3225,10 @@ class Folder:
                     return ClsRef(r0[1]) if r0 is not None and r0[0] == 'class' else ('builtin', v0.kind.split('.')[-1])
                 if self._plain_value(v0) or isinstance(v0, (list, tuple, dict, set, frozenset)):
                     return ('builtin', type(v0).__name__)
+                if getattr(v0, '_sa_native', False) and hasattr(v0, 'data') and hasattr(v0, 'dtype'):
+                    return ('extern', 'numpy.ndarray')
+                if getattr(v0, '_sa_class', None) and self.repo.has_cls(v0._sa_class):
+                    return ClsRef(self.repo.cls(v0._sa_class))
                 raise Unsupported('type() of ' + type(v0).__name__)
             if n == 'repr':
                 return self._repr(args[0])
